@@ -2,7 +2,7 @@
    Model: Model/Index.v add_conj / add_document with wildcard_first = false (the repaired tree).
    The pinned tree registered the match-everything entry before parsing; see C08_refuted_on_pinned_tree. *)
 From Coq Require Import List NArith ZArith Bool.
-From BE Require Import Model.GoTypes Model.GoVal Model.Parsers Model.Index Proofs.BuilderProof.
+From BE Require Import Model.GoTypes Model.GoVal Model.Parsers Model.Index Proofs.BuilderProof Proofs.NoTrace.
 From BE Require Gen.IdsGen.
 Import ListNotations.
 Local Open Scope Z_scope.
@@ -15,6 +15,37 @@ Theorem C08_bad_conj_no_wildcard : forall d st i c st' out,
      forall txs, snd (index_conj (ensure_cont st (calc_size c)) (calc_size c) cid c []) <> POk txs) ->
   b_z st' = b_z st.
 Proof. exact bad_conj_no_wildcard. Qed.
+
+(* NO POSTING ENTRY EITHER: the list of every entry id stored anywhere in the builder state (all posting
+   lists of all holders of all containers, and the wildcard list) is literally unchanged by a conjunction
+   that does not parse -- every policy, both index types, every container mix *)
+Theorem C08_bad_conj_no_trace : forall d st i c st' out,
+  add_conj false d st (i, c) = (st', out) ->
+  (forall cid, IdsGen.NewConjID d i (calc_size c) = Some cid ->
+     forall txs, snd (index_conj (ensure_cont st (calc_size c)) (calc_size c) cid c []) <> POk txs) ->
+  st_entries st' = st_entries st.
+Proof. exact bad_conj_no_trace. Qed.
+
+(* whole documents, every policy: whatever AddDocument adds is an entry of a conjunction of that
+   document THAT PARSES (so under Skip the other conjunctions are indexed exactly as their own entries,
+   and a bad one contributes nothing) *)
+Theorem C08_document_adds_only_entries_of_parsing_conjunctions : forall st d st' out,
+  add_document false st d = (st', out) -> forall e, In e (st_entries st') ->
+  In e (st_entries st) \/
+  exists i c cid b, 0 <= i /\ nth_error (d_conjs d) (Z.to_nat i) = Some c /\
+                    IdsGen.NewConjID (d_id d) i (calc_size c) = Some cid /\
+                    conj_parses st c = true /\ e = IdsGen.NewEntryID cid b.
+Proof. exact add_document_entries. Qed.
+
+(* Error and (recovered) Panic abandon a document in the same state *)
+Theorem C08_error_and_panic_leave_the_same_state : forall wf st1 st2 d,
+  b_kind st2 = b_kind st1 -> b_thr st2 = b_thr st1 -> b_fields st2 = b_fields st1 ->
+  b_conts st2 = b_conts st1 -> b_z st2 = b_z st1 -> b_parsers st2 = b_parsers st1 ->
+  b_policy st1 = PolError -> b_policy st2 = PolPanic ->
+  fst (add_document wf st2 d) = set_policy PolPanic (fst (add_document wf st1 d)) /\
+  st_entries (fst (add_document wf st2 d)) = st_entries (fst (add_document wf st1 d)) /\
+  out_ok (snd (add_document wf st2 d)) = out_ok (snd (add_document wf st1 d)).
+Proof. exact error_panic_same_entries. Qed.
 
 (* documents rejected outright (no conjunction, more than 255) leave the builder untouched *)
 Theorem C08_rejected_unchanged : forall wf st d,
@@ -32,5 +63,8 @@ Theorem C08_refuted_on_pinned_tree :
 Proof. vm_compute. repeat split. discriminate. Qed.
 
 Print Assumptions C08_bad_conj_no_wildcard.
+Print Assumptions C08_bad_conj_no_trace.
+Print Assumptions C08_document_adds_only_entries_of_parsing_conjunctions.
+Print Assumptions C08_error_and_panic_leave_the_same_state.
 Print Assumptions C08_rejected_unchanged.
 Print Assumptions C08_refuted_on_pinned_tree.
